@@ -402,6 +402,7 @@ func (o ClientOpts) eio() string {
 }
 
 type PollClient struct {
+	mu     sync.Mutex // Start* may be called from concurrent goroutines of a case
 	W      *World
 	O      ClientOpts
 	Sid    string
@@ -523,8 +524,10 @@ func (c *PollClient) StartPoll() *Exchange {
 	spec := NewReq("GET", c.W.Path, c.query(true))
 	spec.Header = c.hdr()
 	e := Do(c.W.Srv, spec)
+	c.mu.Lock()
 	c.Poll = e
 	c.Polls = append(c.Polls, e)
+	c.mu.Unlock()
 	return e
 }
 
@@ -591,7 +594,9 @@ func (c *PollClient) StartPostRaw(body []byte, ct string, mod func(*ReqSpec)) *E
 		mod(&spec)
 	}
 	e := Do(c.W.Srv, spec)
+	c.mu.Lock()
 	c.Posts = append(c.Posts, e)
+	c.mu.Unlock()
 	return e
 }
 
